@@ -17,11 +17,12 @@ def plan(tier):
     n = 1500 if tier == "quick" else 40000
     m = 300 if tier == "quick" else 8000
     return [dict(unit="w1", n=n, builds=["py", "so"], case_timeout=60), dict(unit="w2", n=m, builds=["py", "so"], case_timeout=120),
-            dict(unit="fi", n=300 if tier == "quick" else 8000, builds=["py", "so"], case_timeout=60)]
+            dict(unit="fi", n=300 if tier == "quick" else 8000, builds=["py", "so"], case_timeout=60),
+            dict(unit="w2lev", n=300 if tier == "quick" else 6000, builds=["py", "so"], case_timeout=120)]
 
 
 def floors(tier):
-    return {"min_decided": 300, "counters": {"identity_evals": 20000, "row_evals": 5000, "trades": 500, "c01_row_evals": 20000, "identity_points": 1000, "notional_evals": 8000}, "max_undecided_frac": 0.4}
+    return {"min_decided": 300, "counters": {"identity_evals": 20000, "row_evals": 5000, "trades": 500, "c01_row_evals": 20000, "identity_points": 1000, "notional_evals": 8000, "row_identity_evals": 50000, "obs_bankrupt_runs": 15}, "max_undecided_frac": 0.4}
 
 
 def run_case(unit, cs, idx, build, params):
@@ -29,6 +30,10 @@ def run_case(unit, cs, idx, build, params):
         # fixed-income trees: node notional per type, strategy notional = sum |child|, weights = notional shares, after every operation
         from . import c17
         return c17.case_ops(cs)
+    if unit == "w2lev":
+        # leveraged stacks over jumping prices: roots go bankrupt mid-run and are liquidated inside an update; the rows of that date still
+        # have to describe one state. No probes: nothing reads the tree between the declaring update and the next date
+        return _w2case.run_w2(cs, [mon2.c01_rows_only], gen_opts=dict(leverage=True, jumps=2, flows=False, solvers=False, late_p=0.2, nested_p=0.3))
     if unit == "w2":
         return _w2case.run_w2(cs, [mon2.c01_w2], setup=lambda: mon2.IdentityCtx(cs), gen_opts={"fills": 0.3})
     return _w1case.run_w1(cs, [mon1.Identity()])
